@@ -12,7 +12,9 @@
 (*               checked against the property-level cache machine (MechRefines) and   *)
 (*               every call sequence is exported (SEQ) for replay on a real object;   *)
 (*  InitT/NextT  QGauss2 shapes: every (nx,ny), broadcasting model of _setup          *)
-(*               (TensorRefines), exported (TENSOR).                                  *)
+(*               (TensorRefines), exported (TENSOR);                                  *)
+(*  InitD/NextD  every table with 2..4 nodes on an uneven grid with its exact         *)
+(*               trapezoid integral (TAB), laws of the interpolant (TableLaws).       *)
 EXTENDS Quadrature, Json
 
 CONSTANTS AMax,        \* interval end points a,b in -AMax..AMax, a # b
@@ -69,6 +71,10 @@ ToyRules == phase = "iv" =>
     /\ \A j, k \in 0..1 :
           RMul(PowerSum(Midpoint(c.a, c.b), j), PowerSum(Midpoint(c.b, c.a), k))
              = RMul(Moment(c.a, c.b, j), Moment(c.b, c.a, k))
+FastAgrees == phase = "iv" =>
+    LET K == QKMax(c.a, c.b, KCapX) IN
+    /\ \A cap \in {0, 1, 3, 11, 12, 28, KCapX} : QKMaxFast(c.a, c.b, cap) = QKMax(c.a, c.b, cap)
+    /\ QMomentSeq(c.a, c.b, K) = [k \in 1..(K + 1) |-> Moment(c.a, c.b, k - 1)]
 ChebLaws == phase = "nmom" =>
     /\ c.nm = Moment(-1, 1, c.deg)
     /\ (c.deg <= 12) => PolyMoment(ChebCoef(c.deg)) = c.cm                   \* T_k's integral from its coefficients
@@ -106,6 +112,27 @@ InterpLaws == (phase = "kv" /\ c.k = "kvtab") =>
               hi == IF RLe(c.tab[i].y, c.tab[i + 1].y) THEN c.tab[i + 1].y ELSE c.tab[i].y
           IN RLe(c.tab[i].x, c.q) /\ RLe(c.q, c.tab[i + 1].x) /\ RLe(lo, c.v) /\ RLe(c.v, hi)
     /\ ~QIsLinear(c.tab)
+
+\* ---- tabulated data: every table with 2..4 nodes on an uneven grid -------------------------
+XVals == {0, 1, 2, 4, 7}
+YVals == {-1, 0, 2, 3}
+InitD == Blank
+ChooseGrid == /\ phase = "start"
+              /\ \E G \in SUBSET XVals : Cardinality(G) \in 2..4 /\ c' = [k |-> "grid", xs |-> VSortSet(G)]
+              /\ phase' = "grid" /\ Keep
+ChooseVals == /\ phase = "grid"
+              /\ \E y \in [1..Len(c.xs) -> YVals] :
+                    LET tab == [i \in 1..Len(c.xs) |-> [x |-> RInt(c.xs[i]), y |-> RInt(y[i])]]
+                    IN c' = [k |-> "tab", tab |-> tab, trapz |-> QTrapz(tab), linear |-> QIsLinear(tab)]
+              /\ phase' = "tab" /\ Keep
+NextD == ChooseGrid \/ ChooseVals
+TableLaws == phase = "tab" =>
+    LET n == Len(c.tab) IN
+    /\ \A i \in 1..n : QInterp(c.tab, c.tab[i].x) = c.tab[i].y
+    /\ c.linear => c.trapz = RMul(RSub(c.tab[n].x, c.tab[1].x), RDiv(RAdd(c.tab[1].y, c.tab[n].y), <<2, 1>>))
+    /\ (n = 2) => c.linear
+    \* the interpolant is continuous: both neighbouring segments give the node value
+    /\ \A i \in 2..(n - 1) : QInterp(<<c.tab[i - 1], c.tab[i]>>, c.tab[i].x) = QInterp(<<c.tab[i], c.tab[i + 1]>>, c.tab[i].x)
 
 \* ---- the QGauss object ----------------------------------------------------------------
 InitC == Blank
@@ -148,4 +175,5 @@ Export == DoExport =>
     /\ (phase = "kv")   => PrintT(<<"KV", ToJson(c)>>)
     /\ (phase = "obj" /\ Len(c.calls) >= 1) => PrintT(<<"SEQ", ToJson(c)>>)
     /\ (phase = "tensor") => PrintT(<<"TENSOR", ToJson(c)>>)
+    /\ (phase = "tab") => PrintT(<<"TAB", ToJson(c)>>)
 =============================================================================
